@@ -955,7 +955,10 @@ struct Case {
 } cur;
 
 // returns "ok <items>" / "err <exception>"; `shortForm`: "ok:<fnv>" / "<exception>"
-std::string readBack(const unsigned char* data, size_t len, bool shortForm, bool sameCtx = false)
+// a script context that lives across several loads (`sess` / `sreset` / `sload`): the engine's save - reset - load cycle
+std::unique_ptr<ScriptContext> g_session;
+
+std::string readBack(const unsigned char* data, size_t len, bool shortForm, bool sameCtx = false, ScriptContext* session = nullptr)
 {
     g_residue = 0;
     // an exact-size heap copy: a read past the end of the archive is an ASan report
@@ -966,7 +969,9 @@ std::string readBack(const unsigned char* data, size_t len, bool shortForm, bool
     // strings of the writing one; `sameCtx` reads in the writing context instead
     std::unique_ptr<ScriptContext> fresh;
     EventContext* const writer = &EventContext::Get();
-    if (!sameCtx) {
+    if (session) {
+        EventContext::Set(session);
+    } else if (!sameCtx) {
         fresh.reset(new ScriptContext);
         EventContext::Set(fresh.get());
     }
@@ -1029,6 +1034,7 @@ std::string readBack(const unsigned char* data, size_t len, bool shortForm, bool
         fresh.reset();
         EventContext::Set(writer);
     }
+    if (session) EventContext::Set(writer);
     std::free(copy);
     return res;
 }
@@ -1222,10 +1228,39 @@ int main(int argc, char** argv)
             bool same = reg.size() == t.size() - 1;
             for (size_t i = 0; same && i < reg.size(); ++i) same = hexOf(reg[i]) == t[i + 1];
             cur = Case();
+            g_session.reset();
+            EventContext::Set(&context);
             say(same ? "ok" : "registry-mismatch");
             continue;
         }
         if (t[0] == "lis") { say(lisCase(t)); continue; }
+        if (t[0] == "sess" && t.size() == 1) {
+            // a new session: the script context the following `sload`s read into
+            g_session.reset(new ScriptContext);
+            EventContext::Set(&context);
+            say("ok");
+            continue;
+        }
+        if (t[0] == "sreset") {
+            // `ScriptMaster::Reset()` of the session (the dictionary is emptied and refilled with the predefined strings),
+            // then the given texts are interned, in this order
+            if (!g_session) { say("bad-op"); continue; }
+            bool ok = true;
+            std::vector<Bytes> texts(t.size() - 1);
+            for (size_t i = 1; ok && i < t.size(); ++i) ok = unhex(t[i], texts[i - 1]) && !texts[i - 1].empty();
+            if (!ok) { say("bad-op"); continue; }
+            EventContext::Set(g_session.get());
+            g_session->GetDirector().Reset();
+            for (auto& b : texts) g_session->GetDirector().GetDictionary().Add(std::string(b.begin(), b.end()).c_str());
+            EventContext::Set(&context);
+            say("ok");
+            continue;
+        }
+        if (t[0] == "sload" && t.size() == 1) {
+            if (!g_session || !cur.have) { say("bad-op"); continue; }
+            say(readBack(cur.bytes.data(), cur.bytes.size(), false, false, g_session.get()));
+            continue;
+        }
         if (t[0] == "arc" || t[0] == "canon") {
             const bool canonOnly = t[0] == "canon";
             // the ids of the writing dictionary (the hash of a variable name) must not depend on earlier lines
